@@ -17,6 +17,7 @@ import (
 	"go/ast"
 	"go/parser"
 	"go/token"
+	"go/types"
 	"math/big"
 	"os"
 	"path/filepath"
@@ -99,7 +100,32 @@ func isConvTarget(e ast.Expr) bool {
 	return ok && k == kI64
 }
 
+// Inline conversions between nanoseconds and an MP4 time scale that do not go through one of the helpers
+// (round 2): the right-hand side of one assignment in a named function, translated with the listed free
+// variables as parameters.
+type inlineVar struct {
+	expr string // printed Go expression
+	lean string // parameter name
+	k    kind
+}
+
+type inlineSite struct {
+	file string
+	fn   string
+	lhs  string
+	lean string
+	vars []inlineVar
+}
+
+var inlineSites = []inlineSite{
+	{"internal/recorder/format_fmp4_segment.go", "writeDuration", "mvhd.DurationV0",
+		"recorder_writeDuration_mvhdDuration", []inlineVar{{"d", "d", kI64}}},
+	{"internal/playback/segment_fmp4.go", "segmentFMP4ReadHeader", "d",
+		"playback_readHeader_duration", []inlineVar{{"mvhd.DurationV0", "durationV0", kU32}, {"mvhd.Timescale", "timescale", kU32}}},
+}
+
 type xl struct {
+	free    map[string]inlineVar
 	pkgLean string
 	targets map[string]int // same-package target functions -> arity
 	vars    map[string]kind
@@ -115,6 +141,11 @@ func (x *xl) tmp() string {
 }
 
 func (x *xl) expr(e ast.Expr) (string, kind, error) {
+	if x.free != nil {
+		if v, ok := x.free[types.ExprString(e)]; ok {
+			return v.lean, v.k, nil
+		}
+	}
 	switch t := e.(type) {
 	case *ast.ParenExpr:
 		return x.expr(t.X)
@@ -155,6 +186,19 @@ func (x *xl) expr(e ast.Expr) (string, kind, error) {
 		}
 		return "", 0, fmt.Errorf("unsupported unary operator %s", t.Op)
 	case *ast.CallExpr:
+		if id, ok := t.Fun.(*ast.Ident); ok && id.Name == "uint32" && len(t.Args) == 1 && x.free != nil {
+			// narrowing conversion: keeps the low 32 bits
+			a, k, err := x.expr(t.Args[0])
+			if err != nil {
+				return "", 0, err
+			}
+			if k == kU32 {
+				return a, kU32, nil
+			}
+			n := x.tmp()
+			x.lines = append(x.lines, fmt.Sprintf("let %s := I64.toU32 %s", n, a))
+			return n, kU32, nil
+		}
 		if isConvTarget(t.Fun) && len(t.Args) == 1 {
 			a, k, err := x.expr(t.Args[0])
 			if err != nil {
@@ -413,7 +457,14 @@ func main() {
 			return err
 		}
 		// cheap pre-filter
-		if !(strings.Contains(string(src), "multiplyAndDivide") ||
+		relp, _ := filepath.Rel(*repo, p)
+		isInline := false
+		for _, is := range inlineSites {
+			if filepath.ToSlash(relp) == is.file {
+				isInline = true
+			}
+		}
+		if !(isInline || strings.Contains(string(src), "multiplyAndDivide") ||
 			strings.Contains(string(src), "timestampToDuration") || strings.Contains(string(src), "durationToTimestamp") ||
 			strings.Contains(string(src), "durationGoToMp4") || strings.Contains(string(src), "durationMp4ToGo")) {
 			return nil
@@ -509,6 +560,62 @@ func main() {
 		return sites[i].line < sites[j].line
 	})
 
+	type inlineDef struct {
+		site inlineSite
+		body string
+		err  string
+		line int
+	}
+	var inlines []*inlineDef
+	for _, is := range inlineSites {
+		d := &inlineDef{site: is, err: "function or assignment not found"}
+		inlines = append(inlines, d)
+		for _, pf := range pkgs[filepath.ToSlash(filepath.Dir(is.file))] {
+			if pf.rel != is.file {
+				continue
+			}
+			for _, dd := range pf.f.Decls {
+				fd, ok := dd.(*ast.FuncDecl)
+				if !ok || fd.Body == nil || fd.Name.Name != is.fn {
+					continue
+				}
+				var found []*ast.AssignStmt
+				ast.Inspect(fd.Body, func(nd ast.Node) bool {
+					if as, ok := nd.(*ast.AssignStmt); ok && len(as.Lhs) == 1 && len(as.Rhs) == 1 &&
+						(as.Tok == token.ASSIGN || as.Tok == token.DEFINE) && types.ExprString(as.Lhs[0]) == is.lhs {
+						found = append(found, as)
+					}
+					return true
+				})
+				if len(found) != 1 {
+					d.err = fmt.Sprintf("%d assignments to %s", len(found), is.lhs)
+					continue
+				}
+				x := &xl{free: map[string]inlineVar{}, targets: map[string]int{}, vars: map[string]kind{}}
+				var params []string
+				for _, v := range is.vars {
+					x.free[v.expr] = v
+					params = append(params, v.lean)
+				}
+				v, _, err := x.expr(found[0].Rhs[0])
+				d.line = fset.Position(found[0].Pos()).Line
+				if err != nil {
+					d.err = err.Error()
+					continue
+				}
+				var b strings.Builder
+				fmt.Fprintf(&b, "/-- %s:%d `%s`: right-hand side of the assignment to `%s` -/\n", is.file, d.line, is.fn, is.lhs)
+				fmt.Fprintf(&b, "def %s (%s : Int) : Option Int := do\n", is.lean, strings.Join(params, " "))
+				for _, l := range x.lines {
+					b.WriteString("  " + l + "\n")
+				}
+				b.WriteString("  pure " + v + "\n")
+				d.body = b.String()
+				d.err = ""
+			}
+		}
+	}
+
 	var sb strings.Builder
 	sb.WriteString("/-\nGENERATED by tools/xlate/c24 from the repository working tree — do not edit.\n")
 	sb.WriteString("One definition per copy of the timestamp-scaling helpers, plus the call sites of the\nthree-argument copies with their syntactically constant rate arguments.\n-/\n")
@@ -568,6 +675,34 @@ func main() {
 		}
 	}
 	sb.WriteString("]\n\n")
+	for _, d := range inlines {
+		if d.body == "" {
+			fmt.Fprintf(&sb, "-- NOT TRANSLATED inline conversion %s %s (%s): %s\n\n", d.site.file, d.site.fn, d.site.lhs, d.err)
+			fmt.Fprintf(os.Stderr, "c24 xlate: not translated inline conversion %s %s (%s): %s\n", d.site.file, d.site.fn, d.site.lhs, d.err)
+			skipped++
+			continue
+		}
+		sb.WriteString(d.body + "\n")
+	}
+	for ar := 1; ar <= 2; ar++ {
+		fmt.Fprintf(&sb, "/-- inline conversions with %d free variable(s) -/\n", ar)
+		ty := "Int → Option Int"
+		if ar == 2 {
+			ty = "Int → Int → Option Int"
+		}
+		fmt.Fprintf(&sb, "def inline%d : List (String × (%s)) := [", ar, ty)
+		first = true
+		for _, d := range inlines {
+			if d.body != "" && len(d.site.vars) == ar {
+				if !first {
+					sb.WriteString(", ")
+				}
+				first = false
+				fmt.Fprintf(&sb, "(%q, %s)", d.site.lean, d.site.lean)
+			}
+		}
+		sb.WriteString("]\n\n")
+	}
 	sb.WriteString("/-- call sites of the three-argument copies -/\n")
 	sb.WriteString("def sites : List Site := [\n")
 	for i, s := range sites {
